@@ -4,6 +4,7 @@ import Litep2pVerif.Proofs.Kad.CoordinatorQuorum
 import Litep2pVerif.Proofs.Kad.Executor
 import Litep2pVerif.Proofs.Kad.Serve
 import Litep2pVerif.Generated.Consts
+import Litep2pVerif.Proofs.Node.Wiring
 /-!
 # C16 — Every Kademlia operation started by the user ends with one terminal event
 
@@ -448,3 +449,47 @@ theorem settle_covers_timeouts :
 #print axioms manual_update_never_adds
 
 end Litep2pVerif.Props.C16
+
+/-! ## Wiring — the query parameters given to `kademlia::ConfigBuilder`
+
+Over the wiring model `Model/Node/Wiring.lean` (`Node.new c` = `Litep2p::new(ConfigBuilder…build())`, `notes` / `tcpHeld` =
+what the constructed protocol objects / the TCP transport hold, `protocolCodec` = `ProtocolSet::protocol_codec`), tied to
+the real code by the `node` area: real nodes built through the public API print what the CONSTRUCTED objects hold and what
+a connection's `ProtocolSet` answers for every main and fallback name; the driver prints the model's; compared exactly. -/
+namespace Litep2pVerif.Props.C16.Wiring
+open Litep2pVerif Litep2pVerif.Node
+
+/-- Kademlia setter calls of the sample: a later call overrides an earlier one; zero bounds. -/
+def sampleSets : List KadSet := [.maxRecords 5, .replication 3, .maxRecords 0, .maxProviderKeys 0, .validationMode false]
+
+/-- A configuration with fallback names, zero store bounds and non-default transport settings (non-vacuity examples). -/
+def sample : Config :=
+  { keepAliveMs := some 600, listen := [1],
+    notif := [{ name := "/n/new", max := 32, handshake := "01", fallback := ["/n/a"], mode := 'a', sync := some 7, async := none,
+                dial := some false }],
+    rr := [{ name := "/r/new", max := 256, timeoutMs := 800, fallback := ["/r/a", "/r/b"], maxInbound := some 3 }],
+    user := [⟨"/u/a", .identity 8⟩],
+    kad := [{ names := ["/k/2", "/k/1"], max := some 2048,
+              sets := sampleSets }],
+    ping := some 1, identify := true, bitswap := true, maxParallelDials := some 0,
+    tcpSets := [.readAhead 3, .parallelDials 7, .writeBuffer 4] }
+
+/-- Every configured Kademlia instance is constructed with the replication factor (handed to the query engine as well), the
+record TTL and the routing-table-update / record-validation modes the user's builder calls leave; a value set last is the
+value held. -/
+theorem kademlia_config_reaches_protocol (c : Config) :
+    (∀ k ∈ c.kad, Note.kad (kadBuild k.sets) ∈ notes (build c)) ∧
+    ∀ (sets : List KadSet),
+      (∀ n, (kadBuild (sets ++ [.replication n])).replication = n) ∧
+      (∀ n, (kadBuild (sets ++ [.recordTtl n])).recordTtlMs = n) ∧
+      (∀ b, (kadBuild (sets ++ [.updateMode b])).updateAuto = b) ∧
+      (∀ b, (kadBuild (sets ++ [.validationMode b])).validationAuto = b) := by
+  refine ⟨fun k hk => notes_kad_mem _ hk, fun sets => ⟨fun n => ?_, fun n => ?_, fun b => ?_, fun b => ?_⟩⟩ <;>
+    simp only [kadBuild_append, KadSet.apply]
+
+example : Note.kad (kadBuild sampleSets) ∈ notes (build sample) ∧ (kadBuild sampleSets).replication = 3 ∧
+    (kadBuild sampleSets).validationAuto = false ∧ (kadBuild sampleSets).updateAuto = true := by decide
+
+end Litep2pVerif.Props.C16.Wiring
+
+#print axioms Litep2pVerif.Props.C16.Wiring.kademlia_config_reaches_protocol
